@@ -626,6 +626,8 @@ def build_graph(nodes, cfg, root, adapter):
                             use_tmp=False, dry_run=False)
     dag.add_description("study", "c07 adapters")
     dag.add_node("_source", None)
+    if isinstance(nodes, int):
+        nodes = [{"parents": [], "has_restart": False, "rlimit": 0}] * nodes
     for i, nd in enumerate(nodes):
         st = StudyStep()
         st.name = "n%d" % i
@@ -964,6 +966,67 @@ def unreachable_interfaces():
     return out
 
 
+BOUNDARY = [0, 1, 2, 63, 64, 65, 99, 100, 101, 127, 128, 129, 199, 200, 201, 255, 256, 257, 1000]
+
+
+def gen_many_ids(rng, name, n):
+    """n distinct ids (consecutive numbers from a small or random base: plenty of them are prefixes of
+    others), shuffled, in the form the adapter stores."""
+    base = rng.choice([1, 1, 7, 95, 990, rng.randint(1, 10 ** 6)])
+    nums = list(range(base, base + n))
+    rng.shuffle(nums)
+    if name.startswith("flux:"):
+        return [f58enc(x) for x in nums] if flux_textual(name) else nums
+    return [str(x) for x in nums]
+
+
+def boundary_fail_sets(rng, ids):
+    n = len(ids)
+    if not n:
+        return [[]]
+    sets = [[], [ids[0]], [ids[-1]], [ids[n // 2]]]
+    if n >= 100:
+        sets += [[ids[99]], [ids[98]], ids[99::100], [ids[100 % n]]]
+    sets.append([x for x in ids if rng.random() < 3.0 / n])
+    seen, out = set(), []
+    for f in sets:
+        if tuple(f) not in seen:
+            seen.add(tuple(f))
+            out.append(f)
+    return out
+
+
+def gen_boundary_units(rng, name, sizes, per_size):
+    out = []
+    for n in sizes:
+        ids = gen_many_ids(rng, name, n)
+        fs = boundary_fail_sets(rng, ids)
+        if per_size is not None and len(fs) > per_size:
+            head, tail = fs[:1], fs[1:]
+            rng.shuffle(tail)
+            fs = head + tail[:per_size - 1]
+        for f in fs:
+            out.append({"kind": "unit", "adapter": name, "ids": ids, "fail": f, "rc": rng.choice(FAIL_RCS),
+                        "stream": "boundary"})
+    return out
+
+
+def gen_boundary_e2e(rng, name, n):
+    """n independent steps, all in progress (ledger written directly); a tenth of them (small n) carry an
+    older job id that must NOT be cancelled."""
+    inject = [[i, 2 if (n <= 300 and rng.random() < 0.1) else 1] for i in range(n)]
+    total = sum(h for _, h in inject)
+    pool = gen_many_ids(rng, name, total)
+    if name.startswith("flux:") and not flux_textual(name):
+        pool = [str(x) for x in pool]
+    r = rng.random()
+    fail = [] if r < 0.4 or not total else [rng.randrange(total)] if r < 0.7 else \
+        sorted(set(rng.randrange(total) for _ in range(3)))
+    return {"kind": "e2e", "adapter": name, "mode": "inject", "shape": "indep", "nodes": n,
+            "cfg": {"throttle": 0, "attempts": 1}, "pool": pool, "rc": rng.choice(FAIL_RCS),
+            "inject": inject, "fail": fail, "stream": "boundary"}
+
+
 def can_submit(name):
     """The adapters whose submit path works under the stubs (the two oldest flux interfaces
     reject the keyword arguments FluxScriptAdapter.submit passes -- not a C07 matter)."""
@@ -1014,7 +1077,12 @@ def run_adapters(ck):
 
     def account(case, obs, verdict, origin):
         name = case["adapter"]
-        if case["kind"] == "unit":
+        if case.get("stream") == "boundary":
+            n = len(case["ids"]) if case["kind"] == "unit" else case["nodes"]
+            nontrivial = n >= 2
+            bump("%s boundary %s n=%s" % (name, "unit" if case["kind"] == "unit" else "cancel_study",
+                                          n if n < 1000 else "1000+"))
+        elif case["kind"] == "unit":
             nontrivial = len(case["ids"]) >= 2 or bool(case.get("fail"))
             bump("%s unit %s" % (name, "empty" if not case["ids"] else
                                  ("fail@first" if case.get("fail") and case["fail"][0] == case["ids"][0] else
@@ -1066,12 +1134,26 @@ def run_adapters(ck):
             case = gen_e2e_case(rng, name, "inject")
             obs, verdict = replay_case(case, rng)
             account(case, obs, verdict, "generated")
+        # boundary sizes (batched cancel commands): 0 .. 1000 ids, and as many steps in progress
+        sizes = list(BOUNDARY)
+        if ck.tier != "quick":
+            sizes += [rng.randint(300, 999), rng.randint(1001, 3000)]
+        for case in gen_boundary_units(rng, name, sizes, 3 if ck.tier == "quick" else None):
+            obs, verdict = replay_case(case)
+            account(case, obs, verdict, "boundary")
+        for n in sizes:
+            if ck.tier == "quick" and n >= 1000 and names.index(name) != ck.seed % len(names):
+                continue          # quick: the 1000-step graph for one adapter (rotating with the seed)
+            case = gen_boundary_e2e(rng, name, n)
+            obs, verdict = replay_case(case, rng)
+            account(case, obs, verdict, "boundary")
 
     ck.cov["adapters_cancel"] = {
         "adapters": names, "interfaces_not_registered_by_FluxFactory": unreachable_interfaces(), "flux_adapter_built_by": how, "corpus": ncorpus,
         "rule": "per real adapter: cancel_jobs([]); cancel_jobs(ids) for 1-6 prefix-related ids x failing subsets at "
                 "every position (exhaustive for <=4 ids in the thorough tier); cancel_study of a real ExecutionGraph "
                 "after 0-4 scripted polls with real submissions (e2e/submit) or a directly written in-progress ledger "
-                "(e2e/inject). Oracle: set of ids with a cancel attempted = ids in the list / the stub's ledger of "
+                "(e2e/inject); boundary stream: list lengths / steps in progress 0,1,2,63-65,99-101,127-129,199-201,255-257,1000 (+2 random large sizes in the "
+                "thorough tier) x failing ids at the ends, the middle and every 100th position. Oracle: set of ids with a cancel attempted = ids in the list / the stub's ledger of "
                 "live jobs; record status OK iff no attempt failed",
         "histogram": dict(sorted(hist.items()))}
